@@ -263,31 +263,30 @@ def check_history(calls, init_state, pid='C05'):
         got = list(s.result[1])
         if len(got) != len(set(got)):
             raise Violation('%s/iteration-duplicate' % pid, 'iteration returned a key twice: %r\n%s' % (s, fmt(calls)))
-        # window of witness positions at which the scan may take effect: after every call that completed before it
-        # started, before every call invoked after it returned
-        states = [init_state]
-        st_ = init_state
-        for c in witness:
-            st_, _ = model_apply(st_, c)
-            states.append(st_)
-        lo = 0
-        hi = len(witness)
-        for i, c in enumerate(witness):
-            if c.res < s.inv:
-                lo = max(lo, i + 1)
-            if c.inv > s.res:
-                hi = min(hi, i)
-        hi = max(hi, lo)
-        window = states[lo:hi + 1]
-        touched = {op_key(c.op) for c in lin if c.res >= s.inv and c.inv <= s.res}
-        possible = set()
-        required = None
-        for w in window:
-            ks = {k for k, _ in w}
-            possible |= ks
-            required = ks if required is None else (required & ks)
-        required = (required or set()) - touched
-        possible |= touched
+        # Witness-independent, conservative bounds (several linearizations may explain the same results, so the scan is
+        # not judged against one of them): a key is REQUIRED if some write of it completed before the scan started (or it
+        # was there initially) and every successful removal of it either completed before that write began or began after
+        # the scan ended; a key is POSSIBLE if it was there initially or a successful write of it began before the scan ended.
+        def wrote(c):
+            return (c.op[0] in ('set', 'incr', 'decr') and c.result[0] == 'ok') or (c.op[0] == 'add' and c.result == ('ok', True))
+
+        def removed(c):
+            return (c.op[0] == 'pop' and c.result[0] == 'ok' and c.result[1] != MISS) or (c.op[0] == 'delete' and c.result == ('ok', True))
+
+        init_keys = {k for k, _ in init_state}
+        possible = set(init_keys)
+        required = set()
+        keys_seen = init_keys | {op_key(c.op) for c in lin if op_key(c.op) is not None}
+        for k in keys_seen:
+            ws = [c for c in lin if op_key(c.op) == k and wrote(c)]
+            rs = [c for c in lin if op_key(c.op) == k and removed(c)]
+            if any(w.inv < s.res for w in ws):
+                possible.add(k)
+            anchors = ([None] if k in init_keys else []) + [w for w in ws if w.res < s.inv]
+            for a_ in anchors:
+                if all((r.inv > s.res) or (a_ is not None and r.res < a_.inv) for r in rs):
+                    required.add(k)
+                    break
         if not set(got) <= possible:
             raise Violation('%s/iteration-phantom' % pid, 'iteration returned %r, possible keys %r\n%s' % (got, sorted(possible), fmt(calls)))
         if not required <= set(got):
